@@ -24,6 +24,8 @@ pub use zonesmeta::CLIMATEMETADATA;
 
 /// Diccionario con el valor de la radiación total por orientación para el mes de julio
 pub fn total_radiation_in_july_by_orientation(climate: &ClimateZone) -> HashMap<Orientation, f32> {
+    #[cfg(cteenergymodel_verif)]
+    let _verif_guard = crate::verif_trace::Span::new("MONTHLY");
     MONTHLYRADDATA
         .lock()
         .unwrap()
